@@ -132,7 +132,7 @@ def step_compare(run, c, obs_list, key, idmap=None, tol_scale=1.0, warmup=False,
         run.violation(dict(key, outcome='raised'), 'optimize raised %r on a well-posed lattice graph | case %r' % (ex, c), dict(case=c))
         return None
     got = GC.code_dx(old, g)
-    scale = 1.0 + float(np.max(np.abs(dx))) if len(dx) else 1.0
+    scale = (1.0 + float(np.max(np.abs(dx)))) if len(dx) else 1.0
     tol = (2e-5 if custom else 1e-10) * scale * max(1.0, cond ** 0.5 if custom else cond * 1e-2) * tol_scale
     best = None
     for ci, exp in enumerate(exps):
